@@ -405,6 +405,7 @@ def run(tier):
         items.append((srv, res))
     verdicts = audit.validate(ck, items)
     clean_of = {m[0]: (res.get('exit'), audit.has_report(res)) for m, res in zip(meta, results) if m[1] == 'clean'}
+    clean_out = {m[0]: res.get('stdout') for m, res in zip(meta, results) if m[1] == 'clean'}
     for sc, m, res, (ok, info) in zip(scs, meta, results, verdicts):
         name, what, point, cfg, skip = m
         replay = {'archetype': name, 'fault': what, 'argv': sc['argv'], 'exit': res.get('exit'), 'stdout': (res.get('stdout') or '')[-2500:],
@@ -451,6 +452,17 @@ def run(tier):
                 ck.violation('%s exit=%s report=%s' % (kind, res.get('exit'), audit.has_report(res)),
                              '[%s, %s] a well-formed handshake delivered as %s ends with status %s%s; the same transcript delivered plainly gives status %s with a report'
                              % (name, what, what, res.get('exit'), '' if audit.has_report(res) else ' and no report', clean[0]), replay)
+                continue
+            # the same bytes in other segments must give the very same report.  (Debug messages are not held to this: one sent in
+            # front of a probe reply makes that probe give up, so a measurement goes missing - a robustness gap outside what the
+            # properties state; DESIGN 14.3.)
+            if variation in ('segment=', 'split-at-padding') and clean is not None and res.get('exit') == clean[0] \
+                    and clean_out.get(name) is not None and res.get('stdout') != clean_out[name]:
+                import difflib
+                diff = [l for l in difflib.unified_diff(clean_out[name].split('\n'), (res.get('stdout') or '').split('\n'), lineterm='', n=0)
+                        if not l.startswith(('---', '+++', '@@'))][:6]
+                ck.violation('report-changed-by-delivery %s' % what.split('=')[0].replace(' ', ''),
+                             '[%s, %s] same status, but the report differs from the one for the same transcript delivered plainly: %r' % (name, what, diff), replay)
                 continue
         if ok:
             ck.cov['traces_validated_against_impl'] += 1
